@@ -28,8 +28,8 @@ VARIABLES e
 evars == <<e>>
 
 LeafExprs(coreOnly) ==      \* cstates: the time states in which a leaf belongs to the core (<<>>: not a core leaf)
-  UNION {LET st == IF coreOnly THEN Leaves[i].cstates ELSE Leaves[i].states
-         IN {Leaf(Leaves[i].name, st[j][1], st[j][2]) : j \in 1..Len(st)} : i \in 1..Len(Leaves)}
+  UNION {LET st == IF coreOnly THEN LV[i].cstates ELSE LV[i].states
+         IN {Leaf(LV[i].name, st[j][1], st[j][2]) : j \in 1..Len(st)} : i \in 1..Len(LV)}
 AllLeafExprs == LeafExprs(FALSE)
 CoreLeafExprs == LeafExprs(TRUE)
 
@@ -70,7 +70,7 @@ Operands(x) == IF Depth(x) = 0 /\ ~CoreStart THEN (IF PairAll \/ x \in CoreLeafE
 
 Init == e \in (IF CoreStart THEN CoreLeafExprs ELSE AllLeafExprs)
 \* a structural hash, only used to thin out the expansion of composites
-LeafIdx(nm) == CHOOSE i \in 1..Len(Leaves) : Leaves[i].name = nm
+LeafIdx(nm) == CHOOSE i \in 1..Len(LV) : LV[i].name = nm
 OpCode(op) == CASE op = "+" -> 1 [] op = "-" -> 2 [] op = "*" -> 3 [] op = "/" -> 4 [] op = "**" -> 5 [] OTHER -> 6
 RECURSIVE Code(_)
 Code(x) == CASE x[1] = "leaf" -> LeafIdx(x[2]) + 37 * (x[3] + 1) + 41 * (x[4] + 1)
